@@ -8,8 +8,8 @@ LEVEL = "model_checking"
 MANIFEST = dict(
     level="model_checking",
     text="TLC checks Deterministic (validator of the included list reaches the miner's state; a miner offered only the included list seals the same block) "
-         "for every candidate list of <=3 of 9 transaction kinds (valid, order-dependent, unpayable, wrongly signed, votes, contract creation, contract call, "
-         "reverting creation included as failed tx) over 2 blocks; every transition (thorough) or a seeded sample (quick) is executed for real: node A mines with the real "
+         "for every candidate list of <=2 (thorough: <=3) of 14 transaction kinds (valid, order-dependent, unpayable, wrongly signed, failing after gas was bought, votes, contract creation/call, "
+         "reverting creation included as failed tx, boxes incl. one that hits the block gas limit and one with an invalid later sub-transaction) over 2 blocks; every transition (thorough) or a seeded sample (quick) is executed for real: node A mines with the real "
          "assembler, node A2 mines from the included list only, nodes B and C (C first executes a different sibling block) validate through DPoVP.InsertBlock, B is restarted, "
          "re-fed the chain and validates again; TLC validates that all block hashes agree, every node accepts, and the dumps of every account field agree.",
     note="Go's per-iteration map order randomisation is exercised by the five independent executions of every block (same process, separate node objects and databases). "
@@ -20,10 +20,16 @@ MANIFEST = dict(
 def run(ctx):
     ctx.build()
     dot = ctx.path("blockexec.dot")
-    ctx.tlc_exhaustive("BlockExec", "BlockExec.cfg", timeout=900, dump=dot)
+    ctx.tlc_exhaustive("BlockExec", "BlockExec_c2.cfg", timeout=900, dump=dot)
     limit = 300 if ctx.quick() else 0
     files, summ = ctx.replay("blockexec", graph=dot, shards=16, maxlen=10, limit=limit, timeout=3000, chunk=100)
-    ok = ctx.validate("TraceBlockExec", "TraceBlockExec.cfg", files, what="candidate lists on 4 real nodes", timeout=3000)
+    ok = ctx.validate("TraceBlockExec", "TraceBlockExec.cfg", files, what="candidate lists (<=2) on 4 real nodes", timeout=3000)
+    # candidate lists of three (order-dependent triples, a discard between two dependent transactions): simulation
+    sim = ctx.tlc_simulate("BlockExec", "BlockExec_c3.cfg", num=120 if ctx.quick() else 4000, depth=3, prefix="bx3")
+    files3, summ3 = ctx.replay("blockexec", sim=sim, shards=16, name="blockexec3", timeout=3000, chunk=100)
+    ctx.validate("TraceBlockExec", "TraceBlockExec.cfg", files3, what="simulated candidate lists of three", timeout=3000)
+    if not ctx.quick():
+        ctx.tlc_exhaustive("BlockExec", "BlockExec_c3.cfg", timeout=3000)
     ctx.cov["samples"] = summ["samples"]
     ctx.cov["exhaustive"] = not ctx.quick()
     ctx.extra["behaviours_total"] = summ["behaviours_total"]
